@@ -24,8 +24,8 @@ func drawWord(t *rapid.T, maxLen int) string {
 func TestC29(t *testing.T) {
 	col := ev.New("C29", "rapid: printable ASCII texts of 0-300 bytes built from words of length 1-40 (sometimes up to 120, "+
 		"i.e. longer than a line) separated by runs of 1-4 spaces, no leading space, optional trailing spaces, no newline; "+
-		"indentation 0-5 tabs; width such that width-8*indent >= 1 (boundary widths 1,2, word length +-1 preferred). "+
-		"Validity oracle: terminates (30 s watchdog), every line = indent tabs (0-5, a sixth 6-25) + body with len(body) <= remaining width and no "+
+		"indentation 0-5 tabs (a sixth of the cases 6-25); width such that width-8*indent >= 1 (boundary widths 1,2, word length +-1 preferred). "+
+		"Validity oracle: terminates (30 s watchdog), every line = indent tabs + body with len(body) <= remaining width and no "+
 		"leading space, non-space characters of all bodies concatenated = those of the input in order, a word is split only "+
 		"when it is longer than the remaining width. non-trivial = text needing >=2 lines with a word longer than the "+
 		"width or a space run at the split point; distinct by (text, indent, width)")
